@@ -383,3 +383,7 @@ def check(run):
     r8_cited_invariants(run, F)
     r9_resolve_before_fail(run, F)
     r11_type_walkers(run, F)
+    # the constness analyzer is the only gate that keeps loads and calls out of constant initialisers, where the generator
+    # would emit instructions without a basic block (segfault / broken module): shared with C10.R7
+    from props import c10
+    c10.r7_constness_visit(run, F)
